@@ -484,7 +484,8 @@ pub fn pool_op(rng: &mut Rng, c: &Corpus, sw: &Swarm, n: usize, focus: &str) -> 
                 5 => EOp::AddAffine(idx(rng, n), idx(rng, n)),
                 6 => EOp::IntoGroup(idx(rng, n)),
                 _ => match rng.below(6) {
-                    4 | 5 => EOp::OperatorForm(rng.below(24) as u8, idx(rng, n), idx(rng, n), scalar_hex(rng)),
+                    4 => EOp::OperatorForm(rng.below(24) as u8, idx(rng, n), idx(rng, n), scalar_hex(rng)),
+                    5 => EOp::GadgetValue(hex(&some_encoding(rng, c)), rng.chance(1, 3)),
                     0 => EOp::AddOtherRep(idx(rng, n)),
                     1 => EOp::AddDecoded(idx(rng, n)),
                     2 => EOp::ZeroizedCopyEncoded(idx(rng, n)),
